@@ -89,7 +89,7 @@ def run_totality(ctx, rule, modules, targets, axioms=None, depth=5, cap=64, ctor
     return an, ranges
 
 
-def nan_table(ctx, rule, modules, cls, getters, nfield, spec, extra_fields=None, pos_fields=None):
+def nan_table(ctx, rule, modules, cls, getters, nfield, spec, extra_fields=None, pos_fields=None, zero_fields=None, label_suffix='', num_fields=None):
     """R9.5 / R10.5: evaluate each getter with the observation count pinned to 0,1,2,3,4 and [5,inf) and compare the
     NaN-structure (NaN only / number) with the documented thresholds.  spec: {(getter, args): first n with a number}"""
     prog = Program(ctx.prog, set(modules))
@@ -103,6 +103,12 @@ def nan_table(ctx, rule, modules, cls, getters, nfield, spec, extra_fields=None,
             ax = {}
             for c, fields in (pos_fields or {}).items():
                 ax.setdefault(c, {}).update({f: POS for f in fields})
+            for c, fields in (zero_fields or {}).items():
+                ax.setdefault(c, {}).update({f: Itv(0.0, 0.0, False, False) for f in fields})
+            if n != 0:
+                # with at least one observation the running extremes / mean are numbers (maintained by register: accumulator rule)
+                for c, fields in (num_fields or {}).items():
+                    ax.setdefault(c, {}).update({f: I.TOP for f in fields})
             niv = Itv(float(n), float(n), False, False, isint=True) if n != '5+' else Itv(5.0, I.INF, False, True, isint=True)
             ax.setdefault(cls, {})[nfield] = niv
             for f in (extra_fields or ()):
@@ -115,15 +121,18 @@ def nan_table(ctx, rule, modules, cls, getters, nfield, spec, extra_fields=None,
             res = an.call_method(st, cls, g, argatoms, {}, None)
             iv = None
             for (rs, ra) in res:
-                iv = rs.iv(ra) if iv is None else I.join(iv, rs.iv(ra))
+                o_ = rs.obj.get(ra)
+                parts = list(o_[1]) if o_ is not None and o_[0] == 'tuple' else [ra]       # an interval (lo, hi): every component counts
+                for pa in parts:
+                    iv = rs.iv(pa) if iv is None else I.join(iv, rs.iv(pa))
             kind = 'NaN' if (iv is None or (iv.empty and iv.nan)) else ('num' if not iv.nan else 'num|NaN')
             row.append(kind)
             cells += 1
             ctx.examined()
         first = spec[(g, args)]
-        want = ['NaN' if (n != '5+' and n < first) else 'num' for n in counts]
+        want = ['NaN' if ((n != '5+' and n < first) or (n == '5+' and first > 5)) else 'num' for n in counts]
         ok = row == want
-        label = f'{cls}.{g}({", ".join(map(str, args))})'
+        label = f'{cls}.{g}({", ".join(map(str, args))})' + label_suffix
         ctx.ob(rule, label, ok, sample=f'{label}: n=0..4,5+ -> {row} (documented: a number from n >= {first})')
         if not ok:
             ci = ctx.prog.classes.get(cls)
